@@ -283,7 +283,8 @@ class World:
             # plus rows the observed-variants touch (blanked / zeroed positions and their neighbours)
             allpos = np.arange(len(src))
             tnan = ext["temperature"].isna().to_numpy() if "temperature" in ext.columns else np.zeros(len(src), bool)     # hours whose temperature has to be filled
-            for m in ((allpos * 7919 % 10) == 5, (allpos * 7919 % 10) < 3, tnan):
+            dupm = np.asarray(src.duplicated(keep=False))        # timestamps that occur more than once in the caller's frame
+            for m in ((allpos * 7919 % 10) == 5, (allpos * 7919 % 10) < 3, tnan, dupm):
                 hit = allpos[m][:40]
                 pos.update(int(x) for x in hit)
                 pos.update(int(x) + 1 for x in hit if x + 1 < len(src))
@@ -370,9 +371,13 @@ class World:
         elif k == "otherfit":
             fr, kw = lifecat.build("daily", "baseline", "other")
             b = m.DailyBaselineData(fr, **kw)
-            mm = m.DailyModel(model="legacy").fit(b, ignore_disqualification=True)
+            # the unrelated earlier work uses OTHER permitted settings than the model under test (uncertainty level, calendar maps)
+            mm = m.DailyModel(model="legacy", settings={"uncertainty_alpha": 0.05, "weekday_weekend": {
+                1: "weekday", 2: "weekday", 3: "weekday", 4: "weekday", 5: "weekend", 6: "weekend", 7: "weekend"}}).fit(b, ignore_disqualification=True)
             fr2, kw2 = lifecat.build("daily", "reporting", "wmonth")
             mm.predict(m.DailyReportingData(fr2, **kw2), ignore_disqualification=True)
+            frb, kwb = lifecat.build("billing", "baseline", "other")
+            m.BillingModel(settings={"uncertainty_alpha": 0.2}).fit(m.BillingBaselineData(frb, **kwb), ignore_disqualification=True)
         elif k == "otherhourly":
             fr, kw = lifecat.build("hourly", "baseline", "other")
             b = m.HourlyBaselineData(fr, **kw)
